@@ -199,6 +199,12 @@ fn expand(line: &str) -> Option<String> {
 /// assertions are shared by unrelated defects, so for them the key also carries the construct of the input that
 /// can cause it (a reference to the last result, a unit defined by a non-quantity); anything else is `other`.
 fn panic_key(r: &Res, input: &str) -> String {
+    let mentions_nonfinite = input.split(|c: char| !(c.is_alphanumeric() || c == '_')).any(|w| w == "NaN" || w == "inf");
+    if r.detail.contains("IncompatibleUnits") && r.detail.contains("unwrap") && mentions_nonfinite {
+        // the polymorphic `NaN`/`inf` literals (known finding C01-poly-nonfinite) reaching an `unwrap` of a unit
+        // conversion in some FFI function or macro: one defect, many call sites
+        return "panic:poly-nonfinite-conversion-unwrap".to_string();
+    }
     if r.detail.contains("to be on the top of the stack") {
         let uses_last = input.split(|c: char| !(c.is_alphanumeric() || c == '_')).any(|w| w == "ans" || w == "_");
         let tag = if uses_last { "last-result" } else if input.contains("unit ") && input.contains('=') { "unit-definition" } else { "other" };
